@@ -1,20 +1,55 @@
 """
 Correspondence group `elimtree`: shangrla.core.IRVVisualisationUtils.buildRemainingTreeAsLists
 vs. Shangrla.ElimTree.build  (property C20).
+
+Two kinds of case:
+  tree  {"c", "S", "wo", "irv"}: one direct call of buildRemainingTreeAsLists on pruning triples
+  log   {"kind": "log", "contests": [[id, contest], ...], "seed", "contest_id", "candfile", "alt"}: end to end from an
+        audit log of the shape parseAssertions expects ({"Audit": {"seed": ..}, "contests": {id: {"choice_function",
+        "n_winners", "winner", "candidates", "assertions": {name: {"winner", "loser", "proved"}}, "assertion_json":
+        [...]}}}, contests in the given dict order) and a candidate manifest: the REAL parseAssertions selects the
+        contest (contest_id, or the numerically smallest id) and translates its assertions, then -- as
+        buildPrintedResults does -- a tree is built for every alternative winner and rendered with treeListToTuple.
+        The oracle brute-forces all elimination orders against the SELECTED contest's own assertion_json; the model is
+        asked to build the tree of the alternative winner `alt` from the triples the harness derives from that JSON.
 """
-import itertools
+import contextlib, copy, io, itertools
 from ..core import impl_call
 
 NAME = "elimtree"
 RULE = ("exhaustive over 3 candidates x all subsets (<=3 elements) of the 6 NEB + 9 IRV triples in quick tier "
         "(all subsets up to 4 in thorough), plus random 4-6 candidate instances with redundant / inconsistent / "
-        "duplicate assertions; non-trivial = tree has at least one internal node and at least one pruned leaf; "
+        "duplicate assertions; `log` cases (1 in 3 of the random part): audit logs with 1-3 IRV contests of 2-5 "
+        "candidates in random dict order (numeric ids, default = numerically smallest, selection by contest_id as "
+        "str / int / unknown id; same or different candidate sets per contest; assertion sets from sparse to "
+        "sufficient; a contest without assertion_json; missing `proved`) + candidate manifest through the real "
+        "parseAssertions, trees for every alternative winner; non-trivial = tree has at least one internal node and at least one pruned leaf; "
         "distinct = distinct canonical input")
 EXHAUSTIVE = {"quick": False, "thorough": False}
 
 
+def _corpus_log():
+    """two IRV contests over the same candidates, in both file orders: the default contest is "9", not "10"
+    (numeric order); its assertions leave the order 17,15,16 open, those of contest "10" do not"""
+    def con(cid, elim, proved):
+        aj = [{"winner": "15", "loser": "17", "already_eliminated": "", "assertion_type": "WINNER_ONLY"},
+              {"winner": "15", "loser": "16", "already_eliminated": list(elim), "assertion_type": "IRV_ELIMINATION"}]
+        return {"id": cid, "name": "contest " + cid, "risk_limit": 0.05, "choice_function": "IRV", "n_winners": 1,
+                "candidates": ["15", "16", "17"], "winner": ["15"], "assertion_json": aj,
+                "assertions": {assertion_key(a): {"contest": cid, "winner": a["winner"], "loser": a["loser"],
+                                                  "proved": proved} for a in aj}}
+    cf = {"List": [{"Id": 15, "Description": "ALICE"}, {"Id": 16, "Description": "BOB"}, {"Id": 17, "Description": "CAROL"}]}
+    out = []
+    for order in (["10", "9"], ["9", "10"]):
+        for contest_id in (None, "10", 9):
+            cs = {"10": con("10", ["17"], True), "9": con("9", ["16"], False)}
+            out.append({"kind": "log", "seed": 12345678901234567890, "contests": [[c, cs[c]] for c in order],
+                        "contest_id": contest_id, "candfile": cf, "alt": "16"})
+    return out
+
+
 def corpus():
-    return [
+    return _corpus_log() + [
         {"c": "B", "S": ["A", "C"], "wo": [["B", "A", True]], "irv": [["C", ["A"], False]]},
         {"c": "B", "S": ["A", "C"], "wo": [["C", "A", True]], "irv": [["C", ["A"], False], ["C", ["A"], True]]},
         {"c": "B", "S": [], "wo": [], "irv": []},
@@ -79,6 +114,165 @@ def gen(rng, n, tier):
         rng.shuffle(wo); rng.shuffle(irv)
         yield {"c": c, "S": S, "wo": wo, "irv": irv}
         count += 1
+        if count < n and rng.chance(0.5):
+            yield gen_log(rng)
+            count += 1
+
+
+IDS = ["15", "16", "17", "18", "45", "1", "2", "12", "21", "7"]
+NAMES_ = ["ALICE", "BOB", "CAROL", "DAVE", "ERIN", "FRANK", "GRACE", "HEIDI", "IVAN", "JUDY"]
+
+
+def assertion_key(a):
+    if a["assertion_type"] == "WINNER_ONLY":
+        return f"{a['winner']} v {a['loser']}"
+    return f"{a['winner']} v {a['loser']} elim " + " ".join(a["already_eliminated"])
+
+
+def gen_contest_json(rng, cid, cands, style=None):
+    """one IRV contest of an audit log: winner, candidates, assertions (name -> winner/loser/proved) and assertion_json
+    in the same order (what Assertion.make_assertions_from_json / the audit log writer produce)"""
+    winner = rng.choice(cands)
+    style = style or rng.choice(["sparse", "medium", "raire", "raire", "dense"])
+    aj = []
+    others = [c for c in cands if c != winner]
+    if style == "raire":
+        # a (mostly) sufficient set: every alternative winner is excluded by NEB "winner never before alt" or by NEN
+        # assertions on the last rounds; then a few assertions are dropped / altered
+        for alt in others:
+            if rng.chance(0.5):
+                aj.append({"winner": winner, "loser": alt, "already_eliminated": "", "assertion_type": "WINNER_ONLY"})
+            else:
+                for r in range(len(others)):
+                    for E in itertools.combinations([c for c in cands if c not in (alt, winner)], r):
+                        rest = [c for c in cands if c not in E]
+                        # in the round with `rest` standing, someone other than alt is not eliminated next ... the
+                        # usual RAIRE shape "w not eliminated next when E gone" for a random w != alt
+                        w = rng.choice([c for c in rest if c != alt])
+                        aj.append({"winner": w, "loser": alt, "already_eliminated": list(E),
+                                   "assertion_type": "IRV_ELIMINATION"})
+        aj = [a for a in aj if not rng.chance(0.08)]
+    else:
+        dens = {"sparse": 0.1, "medium": 0.3, "dense": 0.6}[style]
+        wo_all, irv_all = all_triples(cands)
+        for l, w in wo_all:
+            if rng.chance(dens):
+                aj.append({"winner": w, "loser": l, "already_eliminated": "", "assertion_type": "WINNER_ONLY"})
+        for x, E in irv_all:
+            if rng.chance(dens / 2):
+                losers = [c for c in cands if c != x and c not in E] or [c for c in cands if c != x]
+                E = list(E); rng.shuffle(E)
+                aj.append({"winner": x, "loser": rng.choice(losers), "already_eliminated": E,
+                           "assertion_type": "IRV_ELIMINATION"})
+    rng.shuffle(aj)
+    seen, uniq = set(), []
+    for a in aj:                      # assertion names are dict keys: one assertion per name
+        k = assertion_key(a)
+        if k not in seen:
+            seen.add(k); uniq.append(a)
+    aj = uniq
+    p_proved = rng.choice([0.0, 0.5, 1.0])
+    assertions = {}
+    for a in aj:
+        d = {"contest": cid, "winner": a["winner"], "loser": a["loser"], "proved": rng.chance(p_proved),
+             "p_value": 0.01, "margin": 0.1}
+        if rng.chance(0.03):
+            d.pop("proved")
+        assertions[assertion_key(a)] = d
+    con = {"id": cid, "name": "contest " + cid, "risk_limit": 0.05, "cards": 1000, "choice_function": "IRV",
+           "n_winners": 1, "share_to_win": None, "candidates": list(cands), "winner": [winner],
+           "assertions": assertions, "assertion_json": aj}
+    return con
+
+
+def gen_log(rng):
+    k = rng.choice([1, 2, 2, 2, 3, 3])
+    cids = rng.sample(["1", "2", "3", "9", "10", "11", "339", "47"], k)
+    nc = rng.choice([2, 3, 3, 3, 4, 4, 5])
+    ids = list(IDS); rng.shuffle(ids)
+    base = ids[:nc]
+    same = rng.chance(0.6)
+    contests = []
+    for cid in cids:
+        if same:
+            cands = list(base)
+            if rng.chance(0.3):
+                rng.shuffle(cands)
+        else:
+            m = rng.choice([2, 3, 3, 4])
+            cands = rng.sample(ids, m)
+        contests.append([cid, gen_contest_json(rng, cid, cands)])
+    if rng.chance(0.12):
+        c = rng.choice(contests)[1]
+        c.pop("assertion_json")           # a contest logged without the RAIRE details (plurality-style)
+        if rng.chance(0.5):
+            c["choice_function"] = "PLURALITY"
+    u = rng.random()
+    if u < 0.4:
+        contest_id = None
+    elif u < 0.85:
+        contest_id = rng.choice(cids)
+        if rng.chance(0.2):
+            contest_id = int(contest_id)
+    else:
+        contest_id = rng.choice(["99", "0", 5])        # not in the log: the default contest is shown
+    used = sorted({c for _, con in contests for c in con["candidates"]})
+    cf = [{"Id": (int(c) if rng.chance(0.8) else c), "Description": NAMES_[IDS.index(c)]} for c in used
+          if not rng.chance(0.05)]
+    rng.shuffle(cf)
+    case = {"kind": "log", "seed": rng.choice([12345678901234567890, 1, "293876"]), "contests": contests,
+            "contest_id": contest_id, "candfile": {"List": cf}}
+    sel = selected_contest(case)
+    alts = [c for c in sel["candidates"] if c != sel["winner"][0]]
+    case["alt"] = rng.choice(alts) if alts else None
+    return case
+
+
+def selected_contest(case):
+    """the contest the log case visualises: contest_id if the log has it, else the numerically smallest id"""
+    d = dict((cid, con) for cid, con in case["contests"])
+    cid = str(case["contest_id"])
+    if cid not in d:
+        cid = str(min(int(x) for x in d))
+    return d[cid]
+
+
+def contest_triples(con):
+    """pruning triples of a contest in the order of its assertions, from its own JSON: the k-th assertion's type,
+    winner, loser and eliminated set from assertion_json[k] (a contest logged without assertion_json: plain
+    "winner beats loser" = NEB), its `proved` flag from the k-th entry of `assertions`"""
+    aj = con.get("assertion_json")
+    wo, irv = [], []
+    for k, a in enumerate(con["assertions"].values()):
+        proved = bool(a.get("proved", False))
+        d = aj[k] if aj is not None and k < len(aj) else None
+        if d is None:
+            wo.append([a["loser"], a["winner"], proved])
+        elif d["assertion_type"] == "WINNER_ONLY":
+            wo.append([d["loser"], d["winner"], proved])
+        elif d["assertion_type"] == "IRV_ELIMINATION":
+            irv.append([d["winner"], list(d["already_eliminated"]), proved])
+    return wo, irv
+
+
+def impl_log(case):
+    from shangrla.core.IRVVisualisationUtils import buildRemainingTreeAsLists, parseAssertions, treeListToTuple
+    log = {"Audit": {"seed": case["seed"]}, "contests": {cid: copy.deepcopy(con) for cid, con in case["contests"]}}
+    with contextlib.redirect_stdout(io.StringIO()):
+        (winner, wname), nonw, WOLosers, IRVElims = parseAssertions(log, copy.deepcopy(case["candfile"]), case["contest_id"])
+    non = [c[0] for c in nonw]
+    alts = []
+    for c in nonw:                      # as buildPrintedResults does
+        S = set(non).copy()
+        S.add(winner)
+        S.remove(c[0])
+        t = buildRemainingTreeAsLists(c[0], S, WOLosers, IRVElims)
+        ct = canon_py(t)
+        alts.append({"alt": c[0], "tree": ct, "unpruned": has_unpruned(ct),
+                     "marker": "***Unpruned leaf" in repr(treeListToTuple(t))})
+    mine = [a for a in alts if a["alt"] == case["alt"]]
+    return {"st": "ok", "winner": winner, "winner_name": wname, "nonwinners": [[c[0], c[1]] for c in nonw],
+            "tree": mine[0]["tree"] if mine else None, "unpruned": mine[0]["unpruned"] if mine else None, "alts": alts}
 
 
 def canon_py(t):
@@ -105,6 +299,8 @@ def has_unpruned(t):
 
 
 def impl(case):
+    if case.get("kind") == "log":
+        return impl_log(case)
     from shangrla.core.IRVVisualisationUtils import buildRemainingTreeAsLists
     wo = [(l, w, p) for l, w, p in case["wo"]]
     irv = [(x, set(E), p) for x, E, p in case["irv"]]
@@ -114,6 +310,11 @@ def impl(case):
 
 
 def request(case):
+    if case.get("kind") == "log":
+        sel = selected_contest(case)
+        wo, irv = contest_triples(sel)
+        alt = case["alt"] if case["alt"] is not None else sel["winner"][0]
+        return ("elimtree", "build", {"c": alt, "S": [c for c in sel["candidates"] if c != alt], "wo": wo, "irv": irv})
     return ("elimtree", "build", case)
 
 
@@ -122,6 +323,12 @@ def compare(case, ir, mr):
         return f"status differs: impl={ir.get('st')}/{ir.get('err')} model={mr.get('st')}/{mr.get('err')}"
     if ir["st"] == "err":
         return None if ir["err"] == mr["err"] else f"error kind differs: {ir['err']} vs {mr['err']}"
+    if case.get("kind") == "log":
+        sel = selected_contest(case)
+        if ir["winner"] != sel["winner"][0] or [c[0] for c in ir["nonwinners"]] != [c for c in sel["candidates"] if c != sel["winner"][0]]:
+            return f"parseAssertions reports winner {ir['winner']} / non-winners {ir['nonwinners']} for contest {sel['id']}"
+        if case["alt"] is None:
+            return None
     mt = canon_model(mr["tree"])
     if mt != ir["tree"]:
         return "trees differ"
@@ -134,6 +341,14 @@ def signature(case, ir):
     if ir.get("st") != "ok":
         return "err:" + str(ir.get("err"))
     t = ir["tree"]
+    pre = ""
+    if case.get("kind") == "log":
+        if t is None:
+            return "trivial:log-no-alternative"
+        last = case["contests"][-1][1] is selected_contest(case)
+        pre = f"log;contests={len(case['contests'])};{'last' if last else 'not-last'};"
+        if "leaf" in t:
+            return pre + "root-leaf"
     if "leaf" in t:
         return "trivial:root-leaf"
     def leaves(t):
@@ -144,7 +359,7 @@ def signature(case, ir):
                 yield from leaves(k)
     ls = list(leaves(t))
     pr = sum(1 for l in ls if l["neb"] or l["irv"])
-    return f"internal;pruned={'some' if pr else 'none'};unpruned={'yes' if pr < len(ls) else 'no'}"
+    return pre + f"internal;pruned={'some' if pr else 'none'};unpruned={'yes' if pr < len(ls) else 'no'}"
 
 
 # ---- oracle: brute force over all elimination orders (independent of the model)
@@ -162,14 +377,46 @@ def contradicted_by(order, wo, irv):
 
 
 def oracle_c20(case, ir):
+    if case.get("kind") == "log":
+        return oracle_log(case, ir)
     if ir.get("st") != "ok":
         return {"what": f"tree construction raised {ir.get('err')}"}
-    c, S, wo, irv = case["c"], case["S"], case["wo"], case["irv"]
+    return check_tree(case["c"], case["S"], case["wo"], case["irv"], ir["tree"], ir["unpruned"])
+
+
+def oracle_log(case, ir):
+    """end to end: for the contest the log case visualises, every alternative winner's tree shows an unpruned leaf
+    exactly when an elimination order ending in it survives the assertions of THAT contest's own JSON"""
+    sel = selected_contest(case)
+    if ir.get("st") != "ok":
+        return {"what": f"parseAssertions / tree construction raised {ir.get('err')}: {ir.get('msg')} "
+                        f"(contest {sel['id']} of {[cid for cid, _ in case['contests']]})"}
+    cands, winner = sel["candidates"], sel["winner"][0]
+    wo, irv = contest_triples(sel)
+    shown = {a["alt"]: a for a in ir["alts"]}
+    for alt in cands:
+        if alt == winner:
+            continue
+        if alt not in shown:
+            return {"what": f"contest {sel['id']}: no tree for alternative winner {alt}"}
+        a = shown[alt]
+        S = [c for c in cands if c != alt]
+        r = check_tree(alt, S, wo, irv, a["tree"], a["unpruned"])
+        if r:
+            return {"what": f"contest {sel['id']} (contest_id={case['contest_id']!r}, log order "
+                            f"{[cid for cid, _ in case['contests']]}), alternative winner {alt}: " + r["what"]}
+        if a["marker"] != a["unpruned"]:
+            return {"what": f"contest {sel['id']}, alternative winner {alt}: rendered tree "
+                            f"{'shows' if a['marker'] else 'lacks'} the ***Unpruned leaf marker, tree has unpruned leaf = {a['unpruned']}"}
+    return None
+
+
+def check_tree(c, S, wo, irv, tree, unpruned):
     if len(S) > 6:
         return None
     exists = any(not contradicted_by(list(p) + [c], wo, irv) for p in itertools.permutations(S))
-    if exists != ir["unpruned"]:
-        return {"what": f"unpruned leaf shown={ir['unpruned']} but an uncontradicted order ending in {c} exists={exists}"}
+    if exists != unpruned:
+        return {"what": f"unpruned leaf shown={unpruned} but an uncontradicted order ending in {c} exists={exists}"}
     # tags exact: walk the tree with the earlier-set of each node
     def walk(t, cand_set):
         if "leaf" in t:
@@ -189,7 +436,7 @@ def oracle_c20(case, ir):
             if r:
                 return r
         return None
-    return walk(ir["tree"], set(S))
+    return walk(tree, set(S))
 
 
 ORACLES = {"C20": oracle_c20}
